@@ -4,12 +4,50 @@ import vlib
 THEOREMS = ["Dispenso.ThreadId." + t for t in ['C45_unique', 'C45_stable', 'C45_range', 'C45_counter_monotone']]
 
 
+def build_blackbox():
+    """main program (linked before thread_id.cpp, so its globals are constructed first) + a separately linked
+    module built with hidden visibility"""
+    nat = os.path.join(vlib.HARNESS, "native")
+    src, plug = os.path.join(nat, "c45_blackbox.cpp"), os.path.join(nat, "c45_plugin.cpp")
+    hh = vlib.file_hash([src, plug, os.path.join(vlib.HARNESS, "common.h")] + vlib.repo_sources(), "c45bb")
+    d = os.path.join(vlib.BUILD, "bin")
+    os.makedirs(d, exist_ok=True)
+    exe, so = os.path.join(d, "c45_blackbox_" + hh), os.path.join(d, "libc45plugin_%s.so" % hh)
+    with vlib.Lock("bin_c45bb" + hh):
+        if os.path.exists(exe) and os.path.exists(so):
+            return exe, ""
+        for f in os.listdir(d):
+            if f.startswith("c45_blackbox_") or f.startswith("libc45plugin_"):
+                os.unlink(os.path.join(d, f))
+        inc = vlib.repo_includes()
+        rc, out, err = vlib.sh(["g++", "-std=c++17", "-O1", "-g", "-shared", "-fPIC", "-fvisibility=hidden", plug, "-o", so] + inc, timeout=600)
+        if rc != 0:
+            return None, (out + err)[-3000:]
+        rc, out, err = vlib.sh(["g++", "-std=c++17", "-O1", "-g", src, os.path.join(vlib.repo_path(), "dispenso", "thread_id.cpp"),
+                                "-rdynamic", "-o", exe, so, "-Wl,-rpath," + d, "-pthread", "-I" + vlib.HARNESS] + inc, timeout=600)
+        if rc != 0:
+            return None, (out + err)[-3000:]
+        return exe, ""
+
+
 def run(ctx, replay):
-    ctx.cov["rule"] = ('1..8 (every tenth scenario up to 64) concurrently created threads each calling threadId() 1..4 times under the deterministic scheduler; every trace replayed through the Lean model; oracle: ids stable per thread and pairwise distinct; distinct = (threads, calls)')
+    ctx.cov["rule"] = ('1..8 (every tenth scenario up to 64) concurrently created threads each calling threadId() 1..4 times under the deterministic scheduler; every trace replayed through the Lean model; oracle: ids stable per thread and pairwise distinct; distinct = (threads, calls); black-box layer (native threads): ids of threads created during static initialization, of bursts of 1..64 threads released together, and as seen from a second module built with hidden visibility')
     if THEOREMS:
         ctx.prove("DispensoVerif.Props.C45", THEOREMS)
     else:
         vlib.lake_build(["dvdriver"])
+    # black-box layer first: it does not depend on library internals, so it still searches for a failing input
+    # when a rewrite makes the white-box harness below uncompilable
+    if not (replay and replay.get("harness", "").startswith("conc/")):
+        bb, log = build_blackbox()
+        if not bb:
+            ctx.broken.append(("harness:c45_blackbox", "does not compile against the current tree: " + log[-1500:]))
+        else:
+            a0 = replay["args"] if replay and replay.get("args") else [ctx.seed, 30 if ctx.tier == "quick" else 600]
+            r0 = vlib.harness_diff(ctx, "threadid_bb", bb, a0)
+            vlib.standard_verdict(ctx, "threadid_bb", r0, a0, "native/c45_blackbox.cpp")
+        if replay:
+            return
     src = os.path.join(vlib.HARNESS, "conc", "c45_threadid.cpp")
     exe, log = vlib.build_dsched_harness(src, repo_cpps=("tsan_annotations.cpp", "thread_id.cpp"))
     if not exe:
